@@ -9,6 +9,9 @@ import (
 	"strings"
 	"time"
 
+	sdk "github.com/cosmos/cosmos-sdk/types"
+	markettypes "github.com/regen-network/regen-ledger/x/ecocredit/v3/marketplace/types/v1"
+
 	"verifharness/chain"
 	"verifharness/eng"
 	"verifharness/gen"
@@ -217,6 +220,7 @@ type c09State struct {
 	known      *mon.KnownSet
 	rep        *eng.Reporter
 	roundTrips int
+	skipEscrow bool
 	docs       map[string]bool
 	nontrivial map[string]bool
 	knownHits  map[string]int
@@ -332,7 +336,7 @@ func (st *c09State) roundTrip(e *eng.Engine, where string) {
 	if bad, _ := mon.ConservationScan(sn); len(bad) > 0 {
 		e.Violate("C09", "imported-conservation", where+": conservation fails on the imported chain: "+strings.Join(bad[:1], ";"))
 	}
-	if bad := mon.EscrowScan(sn); len(bad) > 0 {
+	if bad := mon.EscrowScan(sn); len(bad) > 0 && !st.skipEscrow {
 		e.Violate("C09", "imported-escrow", where+": escrow != orders on the imported chain: "+bad[0])
 	}
 	if bad := mon.BackingScan(sn); len(bad) > 0 {
@@ -440,6 +444,36 @@ func runC09(a Args) Result {
 			if c > 0 {
 				reimports++
 			}
+		}
+	}
+	// deterministic witness: a genesis only a file can bring in — an open sell order that is not fully
+	// backed by its seller's escrow (accepted by ValidateGenesis). The seller tries to cancel it and to
+	// reduce it; whatever the handlers do with it, the resulting state must still export, validate and
+	// re-import (the escrow = orders scan is skipped on this chain: the genesis itself does not satisfy it).
+	if a.Worker == 0 {
+		app := chain.NewApp(chain.Options{})
+		e := eng.New(app, rep, false)
+		e.PropOverride = "C09"
+		e.SeedTag = fmt.Sprintf("s%d-w0-underbacked", a.Seed)
+		if err := e.Init(gen.Genesis(app, "underbacked"), gen.GenesisTime); err != nil {
+			errs = append(errs, "underbacked genesis: "+err.Error())
+		} else {
+			seller := gen.ActorAddr(4).String()
+			price := sdk.NewInt64Coin("stake", 10)
+			e.NextBlock(gen.GenesisTime.Add(time.Hour))
+			st.skipEscrow = true
+			e.Commit()
+			st.roundTrip(e, "underbacked-witness genesis")
+			e.Resume(gen.GenesisTime.Add(2 * time.Hour))
+			e.Exec(eng.Tx{Msgs: []sdk.Msg{&markettypes.MsgUpdateSellOrders{Seller: seller, Updates: []*markettypes.MsgUpdateSellOrders_Update{{SellOrderId: 1, NewQuantity: "2", NewAskPrice: &price, DisableAutoRetire: true}}}}, Tag: "underbacked/update-down"})
+			e.Commit()
+			st.roundTrip(e, "underbacked-witness after update")
+			e.Resume(gen.GenesisTime.Add(3 * time.Hour))
+			e.Exec(eng.Tx{Msgs: []sdk.Msg{&markettypes.MsgCancelSellOrder{Seller: seller, SellOrderId: 1}}, Tag: "underbacked/cancel"})
+			e.Commit()
+			st.roundTrip(e, "underbacked-witness after cancel")
+			st.skipEscrow = false
+			cov["underbacked_order_witness_round_trips"] = 3
 		}
 	}
 	cov["evaluations"] = st.roundTrips
